@@ -167,7 +167,7 @@ def run(c):
         "AMBR text is '<decimal 0..65535> <Kbps|Mbps|Gbps|Tbps|Pbps>' for both directions",
         "zone text is sign HH:MM on the quarter-hour grid with optional +1/+2; zone/DST pairs whose effective offset leaves -19:45..+19:45 are outside the statement",
         "time stamps follow TS 23.040 (the fields are the clock reading at the given offset); years 2000-2099; instants sampled at every field boundary plus seeded, in fixed zones and in 13 tz-database locations (winter, summer and around every offset transition; needs the system or embedded tz database)",
-        "name characters restricted to those with identical ASCII and GSM 7-bit codes; names of 0..64 characters",
+        "names of 0..64 septets; characters with identical ASCII and GSM 7-bit codes must unpack to themselves; for the other septets (code 0, control codes, DEL, and $ @ _) the count of septets, the spare bits and every neighbour are required as always, the value under either reading where both exist (NameOKAny)",
         "quick tier: timer 3 dense to 131 071 s + windows, AMBR chunks around 32 768/ends/seeded; thorough: full domains" if not thorough else "thorough: every duration and every AMBR value x unit x direction observed",
     ]
 
